@@ -10,6 +10,7 @@ import (
 	"go/ast"
 	"go/constant"
 	"go/importer"
+	"go/printer"
 	"go/token"
 	"go/types"
 	"regexp"
@@ -102,18 +103,65 @@ func findIf(fset *token.FileSet, body *ast.BlockStmt, cond string) (*ast.BlockSt
 	return fb, fc
 }
 
+func nodeText(fset *token.FileSet, n ast.Node) string {
+	var b strings.Builder
+	printer.Fprint(&b, fset, n)
+	return b.String()
+}
+
+// findStmt returns the statement list starting at the first statement (source order) whose text starts with prefix.
+func findStmt(fset *token.FileSet, body *ast.BlockStmt, prefix string) []ast.Stmt {
+	var found []ast.Stmt
+	scan := func(list []ast.Stmt) {
+		for i, st := range list {
+			if found == nil && strings.HasPrefix(nodeText(fset, st), prefix) {
+				found = list[i:]
+			}
+		}
+	}
+	ast.Inspect(body, func(n ast.Node) bool {
+		if found != nil {
+			return false
+		}
+		switch x := n.(type) {
+		case *ast.BlockStmt:
+			scan(x.List)
+		case *ast.CaseClause:
+			scan(x.Body)
+		}
+		return found == nil
+	})
+	return found
+}
+
+// stopHere implements `stopat`: the value of the retvar variable when control reaches the marked statement.
+func (t *ftr) stopHere(s ast.Stmt, d int) (string, bool, error) {
+	if t.spec.StopAt == "" || !strings.HasPrefix(nodeText(t.fset, s), t.spec.StopAt) {
+		return "", false, nil
+	}
+	vt, ok := t.vars[t.spec.RetVar]
+	if !ok {
+		return "", true, fmt.Errorf("stopat: variable %s is not defined at `%s`", t.spec.RetVar, t.spec.StopAt)
+	}
+	e, err := t.coerce(t.spec.RetVar, vt, t.ret)
+	return ind(d) + e, true, err
+}
+
 // retVarMatch implements `retvar: "name"` (first assignment) and `retvar: "name#k"` (k-th assignment statement to
 // that variable on the translated path, counted from 1).
 func (t *ftr) retVarMatch(name string) bool {
-	want, k := t.spec.RetVar, 1
-	if i := strings.Index(want, "#"); i >= 0 {
-		k, _ = strconv.Atoi(want[i+1:])
-		want = want[:i]
-	}
-	if name != want {
+	if t.spec.StopAt != "" {
 		return false
 	}
-	t.retSeen++
+	i := strings.Index(t.spec.RetVar, "#")
+	if i < 0 {
+		return name == t.spec.RetVar // as before the extension: every assignment statement to the variable returns
+	}
+	k, _ := strconv.Atoi(t.spec.RetVar[i+1:])
+	if name != t.spec.RetVar[:i] {
+		return false
+	}
+	t.retSeen++ // counted along the straight-line path only (not reset per branch)
 	return t.retSeen == k
 }
 
@@ -166,6 +214,9 @@ func (t *ftr) storesOnly(list []ast.Stmt) bool {
 
 // tieStmt handles the statement forms the opt-in fields add. handled == false: fall through to the ordinary rules.
 func (t *ftr) tieStmt(s ast.Stmt, rest []ast.Stmt, d int) (string, bool, error) {
+	if out, hit, err := t.stopHere(s, d); hit {
+		return out, true, err
+	}
 	if t.spec.SkipGuards {
 		if x, ok := s.(*ast.IfStmt); ok && x.Else == nil && terminates(x.Body.List) {
 			r, err := t.stmts(rest, d)
